@@ -133,6 +133,14 @@ HooksExact(s) ==
                   bef == {hs[i].at : i \in {j \in DOMAIN hs : Phase(hs[j].name) = "before"}}
                   aft == {hs[i].at : i \in {j \in DOMAIN hs : Phase(hs[j].name) = "after"}}
               IN \E m \in s.mains : (\A t \in bef : t < m) /\ (\A t \in aft : t > m)
+  \* phases: associated records are saved / deleted between the before- and the after-hooks of the
+  \* operation's own records (a later phase never starts before an earlier one has finished)
+  \* (operations made of one main statement; CreateInBatches repeats the phases per batch)
+  /\ (Transactional(s) /\ s.op.kind \in {"create", "update", "delete"} /\ Cardinality(s.mains) = 1) =>
+        \A i, j \in DOMAIN s.hooks :
+           (s.hooks[i].model = s.op.mainmodel /\ s.hooks[j].model # s.op.mainmodel) =>
+              /\ (Phase(s.hooks[i].name) = "before" => s.hooks[i].at < s.hooks[j].at)
+              /\ (Phase(s.hooks[i].name) = "after"  => s.hooks[i].at > s.hooks[j].at)
 
 PEnd(s, e) ==
   LET faulted == s.op.fault \in {"drv", "hook"}
